@@ -55,6 +55,8 @@ def register(E):
 
     def as_iter(e, x):
         if isinstance(x, It): return x
+        x0_ = deref(x)
+        if isinstance(x0_, Enum) and x0_.ty == 'Option': return It('list', l=([Ref(x0_.f, 0)] if isinstance(x, Ref) else list(x0_.f)) if x0_.v == 'Some' else [], pos=0)
         if isinstance(x, (Agg, Enum)) and x.ty and x.ty.endswith('Either') and len(x.f) == 1: return as_iter(e, x.f[0])
         if isinstance(x, SliceRef): return It('slice', l=x.l, pos=x.lo, end=x.hi)
         if isinstance(x, Vec): return It('list', l=list(x.l), pos=0)
